@@ -171,3 +171,9 @@ func ghost_nscans(rs *RetentionScanner) int { panic("ghost") }
 //@   ensures[zeroNeverScans] old(rs.retentionPeriod) <= 0 ==> ghost_nscans(rs) == old(ghost_nscans(rs)) && ghost_nremoved(rs.ds) == old(ghost_nremoved(rs.ds))
 //@   loop 1: invariant !ghost_closed(rs.retentionShutdown) && rs.ds != nil && rs.retentionShutdown != nil && rs.retentionPeriod > 0
 //@   serves C12
+
+// HashLock.Get: the lock of the bucket of a hex hash (assumed: a hash of at least three hex digits
+// always has a bucket; the same hash always yields the same lock).
+//@ func (*HashLock).Get
+//@   trusted
+//@   ensures len(hash) >= 3 ==> ret != nil
